@@ -1,6 +1,8 @@
 import Poly.Util.Sha256
 import Poly.Util.Proto
 import Poly.Model.Native
+import Poly.Model.NativeWitness
+import Poly.Generated.Guards
 /- Driver for the native-runtime families. `drv_native <family>` reads op lines on stdin. -/
 open Poly
 open Poly.Model.Native
@@ -174,7 +176,75 @@ def step (s : St) (toks : List String) : St × String :=
 
 end AtomicDrv
 
+namespace WitnessDrv
+open AtomicDrv
+
+def addrT : Addr := addrOf 0xd4
+
+def relayHandler : Handler := fun args =>
+  match decodeParam args with
+  | some (a, m, ar) => .call a m ar fun r => match r with | .ok v => .ret v | _ => .fail
+  | none => .fail
+
+def field (key tok : String) : Option String :=
+  if tok.startsWith (key ++ "=") then some (tok.drop (key.length + 1)).toString else none
+
+def hexList (s : String) : Option (List Bytes) :=
+  if s = "-" then some [] else (s.splitOn ",").mapM Hex.ofHex
+
+/-- The guard of a method as regenerated from the Go source. -/
+def generatedGuard (contract method : String) : Option Guard :=
+  match Poly.Generated.Guards.table.find? fun e => e.1 == (contract, method) with
+  | some e => Guard.ofString e.2
+  | none => none
+
+def viaAddrs (s : String) : Option (List Addr) :=
+  if s = "-" then some [] else (s.splitOn ",").mapM addrNamed
+
+def relayCode : List Addr → Bytes → Bytes
+  | [], code => code
+  | a :: r, code => encodeParam a (ascii "relay") (relayCode r code)
+
+def step (_ : Unit) (toks : List String) : Unit × String :=
+  match toks with
+  | ["height", _] => ((), "ok")
+  | _ :: contract :: method :: _ :: via :: _ :: _ :: "|" :: op :: ow :: sg :: du :: pr :: po :: [] =>
+    let r : Option String := do
+      let g ← generatedGuard contract method
+      let via ← (field "via" via) >>= viaAddrs
+      let operator ← (field "operator" op) >>= Hex.ofHex
+      let owner ← (field "owneraddr" ow) >>= Hex.ofHex
+      let signers ← (field "signeraddrs" sg) >>= hexList
+      let due ← field "due" du
+      let post ← field "post" po
+      let pre ← field "pre" pr
+      let required := match g with
+        | .operator => operator
+        | .operatorOrDue => operator
+        | .ownerParam => owner
+        | .none => []
+      let body : Prog := if post = "ok" then .put [1] [1] (.ret [1]) else if post = "panic" then .log "panic" .fail else .fail
+      -- validation some handlers perform before asking for the witness fails for every signer alike
+      let target : Handler := fun _ => if pre = "ok" then guarded g required (due = "1") body else .fail
+      let reg : Registry := fun a =>
+        if a = addrT then some [(ascii "m", target)]
+        else if a = addrA ∨ a = addrB then some [(ascii "relay", relayHandler)]
+        else none
+      let tx : Tx := { signers := signers, code := relayCode via (encodeParam addrT (ascii "m") []), chainOk := true }
+      let res := (execTx leafHash reg { base := [], height := 1, time := 1 } { overlay := [], cache := [] } tx).2
+      if res.ok then pure "ok"
+      else if res.log.contains "panic" then pure "panic"
+      else if res.log.contains "reject:witness" then
+        pure ("reject:witness w=" ++ toString (res.effs.filter (fun e => match e with | .write _ _ => true | _ => false)).length)
+      else pure "reject:other"
+    ((), r.getD "bad-op")
+  | _ => ((), "bad-op")
+
+end WitnessDrv
+
 def main (args : List String) : IO Unit :=
   match args with
   | ["atomic"] => Proto.run ({} : AtomicDrv.St) AtomicDrv.step
+  | ["determ"] => Proto.run ({} : AtomicDrv.St) AtomicDrv.step
+  | ["witness"] => Proto.run () WitnessDrv.step
   | _ => IO.eprintln "usage: drv_native <family>"
